@@ -83,9 +83,19 @@ def run(chk):
         outs = list(ex.map(_solve, jobs))
     recs = []
     fam = {}
+    failed = [o for o in outs if o["err"]]
+    if failed and len(failed) == len(outs):
+        raise MachineryError(f"every solve failed, e.g. {failed[0]['label']}: {failed[0]['err']}")
+    seenfail = set()
+    for o in failed:
+        # a run that fails while other variants of the same instance succeed: the outcome depends on the number of
+        # workers / the order or set of targets
+        variant = o["label"].split(":", 1)[1].split("=")[0]
+        if variant not in seenfail:
+            seenfail.add(variant)
+            chk.violation(f"C03:solve-fails-for-a-variant variant={variant}", f"solve failed in {o['label']} while other variants of the instance succeed: {o['err'][:300]}", {"label": o["label"], "err": o["err"][:500]})
+    outs = [o for o in outs if not o["err"]]
     for o in outs:
-        if o["err"]:
-            raise MachineryError(f"solve failed in {o['label']}: {o['err']}")
         for p in o["pools"]:
             recs.append({"ev": "pool", "n": p["n"], "items": p["items"], "log": p["log"], "label": o["label"]})
         b = o["label"].split(":")[0]
